@@ -282,15 +282,9 @@ Definition one_result (P : policy) (step : Z) (tev : event) (did_complete : bool
   | RFailed x failed_at =>
     let failures := i_att this + 1 in
     let elapsed := failed_at - i_first this in
+    (* a policy that raises is logged and treated as "do not retry" (fix: commit for C04): PRaise = PStop *)
     let dec := match pol (w_cfg w) with Some p => P p elapsed failures x | None => PStop end in
-    match dec with
-    | PRaise => Err 3
-    | PRetry d =>
-      let q := {| a_ev := tev ; a_att := Some failures ; a_first := Some (i_first this) ;
-                  a_exn := Some x ; a_failed := Some failed_at ; a_rc := i_rc this |} in
-      Ok {| k_state := s ; k_w := w ; k_this := this ;
-            k_cmds := k_cmds a ++ [CQueue q (Some step) (Some d)] ; k_out := k_out a ; k_keep := k_keep a |}
-    | PStop =>
+    let exhausted :=
       let hname := zlookup step (c_handler_for (cfg s)) in
       let h := match hname with Some n => zlookup n (c_handlers (cfg s)) | None => None end in
       let cur := match h with
@@ -313,7 +307,15 @@ Definition one_result (P : policy) (step : Z) (tev : event) (did_complete : bool
           Ok {| k_state := with_workers s false (workers s) ; k_w := w ; k_this := this ;
                 k_cmds := k_cmds a ++ [CPublish (PFailed step x failures elapsed) ; CFail step x] ;
                 k_out := k_out a ; k_keep := k_keep a |}
-      end
+      end in
+    match dec with
+    | PRaise => exhausted
+    | PRetry d =>
+      let q := {| a_ev := tev ; a_att := Some failures ; a_first := Some (i_first this) ;
+                  a_exn := Some x ; a_failed := Some failed_at ; a_rc := i_rc this |} in
+      Ok {| k_state := s ; k_w := w ; k_this := this ;
+            k_cmds := k_cmds a ++ [CQueue q (Some step) (Some d)] ; k_out := k_out a ; k_keep := k_keep a |}
+    | PStop => exhausted
     end
   | RAddColl buf e =>
     (* setdefault: creates the buffer (at the end of the dict) if absent *)
